@@ -29,9 +29,10 @@ PatE == { {<<0, 0>>},                                                        \* 
           {<<0, 0>>, <<1, 0>>, <<4, -2>>},                                   \* hole at <<2,-1>>: factor rule does not fire
           {<<0, 0>>, <<2, -1>>, <<4, -2>>, <<-1, 2>>} }                      \* inner edge filled, outer free
 \* (outer edge filled / edge assemblies without their sources: among the 255 patterns of the thorough emission)
-\* emission (thorough): every pattern of at most 4 cells over the line-focused domain (162 patterns; the larger ones are
+\* emission (thorough): every pattern of at most 3 cells over the line-focused domain, the 4-cell ones with centre and
+\* <<2,-1>>, and the hand-picked family (the larger ones are
 \* in the exhaustive runs and in the random traces)
-PatET == {P \in PatL : Cardinality(P) <= 4}
+PatET == {P \in PatL : Cardinality(P) <= 3} \cup {P \in PatL : Cardinality(P) = 4 /\ <<0, 0>> \in P /\ <<2, -1>> \in P} \cup PatE
 
 GoBounded == TLCGet("level") < MaxLevel
 Bound   == TLCGet("level") <= MaxLevel
